@@ -9,7 +9,6 @@ package payment
 //@ ghost var paid map[string]int
 //@ ghost var feeOf fun(int)int
 
-//@ guarded_by PaymentService.withdrawing mu
 
 //@ funcfield PaymentService.WithdrawFee(amount) (result)
 //@ requires amount != nil
@@ -20,7 +19,7 @@ package payment
 //@ requires paymentAmount != nil && newBalance != nil
 //@ ensures [paid]    err == nil ==> paid == upd(old(paid), string(account), old(paid)[string(account)] + bigval(paymentAmount)) && effects == old(effects) + 1
 //@ ensures [failed]  err != nil ==> paid == old(paid) && effects == old(effects)
-//@ ensures [errkind] !typeis(err, pool.VerifyFailedError)
+//@ ensures [errkind] plainError(err)
 //@ modifies paid, effects
 
 //@ func (*PaymentService).verify
@@ -41,3 +40,35 @@ package payment
 //@ ensures [refused-no-trace] !(authOK && nonceOK) ==> effects == old(effects) && p.NonceStore.nonce == old(p.NonceStore.nonce)
 //@                              && p.AccountStore.credit == old(p.AccountStore.credit) && p.AccountStore.cell == old(p.AccountStore.cell)
 //@ ensures [zero-sum] {C01}   p.AccountStore.total == old(p.AccountStore.total)
+
+//@ pure spendableOf(s store.BalanceStore, a string) int = s.credit[a] + s.deposit[a]
+
+//@ func (*PaymentService).Withdraw
+//@ property C01 C04 C06 C07
+//@ requires !authOK && !nonceOK && !held(p.mu)
+//@ ensures [authorised]       {C04} effects != old(effects) ==> authorised("pool_withdraw", wallet, nonce) && len(authArgs) == 0
+//@ ensures [refused-error]    {C06} !(authOK && nonceOK) ==> typeis(err, pool.VerifyFailedError)
+//@ ensures [refused-no-trace] {C06 C07} !(authOK && nonceOK) ==> effects == old(effects) && p.NonceStore.nonce == old(p.NonceStore.nonce)
+//@                              && paid == old(paid) && p.BalanceStore.credit == old(p.BalanceStore.credit)
+//@ ensures [disabled]         {C07} authOK && nonceOK && p.Settle == nil ==> err == ErrWithdrawDisabled && paid == old(paid) && p.BalanceStore.credit == old(p.BalanceStore.credit)
+//@ ensures [below-minimum]    {C07} p.WithdrawMin != nil && old(spendableOf(p.BalanceStore, wallet)) < bigval(p.WithdrawMin) ==> err != nil && paid == old(paid) && p.BalanceStore.credit == old(p.BalanceStore.credit)
+//@ ensures [minimum-error]    {C07} typeis(err, WithdrawBalanceMinimumError) ==> p.WithdrawMin != nil && old(spendableOf(p.BalanceStore, wallet)) < bigval(p.WithdrawMin)
+//@                                    && bigval(err.(WithdrawBalanceMinimumError).Balance) == old(spendableOf(p.BalanceStore, wallet))
+//@ ensures [pays-exactly]     {C07} err == nil ==> paid == upd(old(paid), wallet, old(paid)[wallet] +
+//@                                    ite(p.WithdrawFee != nil, feeOf(old(spendableOf(p.BalanceStore, wallet))), old(spendableOf(p.BalanceStore, wallet))))
+//@ ensures [nothing-left]     {C07} err == nil ==> p.BalanceStore.credit == upd(old(p.BalanceStore.credit), wallet, 0)
+//@ ensures [failure-pays-nothing] {C07} err != nil ==> paid == old(paid)
+//@ ensures [failure-keeps-balance] {C07} err != nil && (p.BalanceStore.loglen == old(p.BalanceStore.loglen) || p.BalanceStore.loglen == old(p.BalanceStore.loglen) + 2)
+//@                                    ==> p.BalanceStore.credit == old(p.BalanceStore.credit)
+//@ ensures [ledger]           {C01} (err == nil ==> p.BalanceStore.total == old(p.BalanceStore.total) - old(p.BalanceStore.credit[wallet]))
+//@                                    && (err != nil && (p.BalanceStore.loglen == old(p.BalanceStore.loglen) || p.BalanceStore.loglen == old(p.BalanceStore.loglen) + 2)
+//@                                        ==> p.BalanceStore.total == old(p.BalanceStore.total))
+//@ ensures [unlocked]         {C07 C10} !held(p.mu)
+//@ callreq BalanceStore [critical-section] {C07 C10} : held(p.mu)
+//@ callreq PaymentService.Settle [critical-section] {C07 C10} : held(p.mu)
+//@ witness credit = p.BalanceStore.credit[wallet]
+//@ witness deposit = p.BalanceStore.deposit[wallet]
+//@ witness minSet = p.WithdrawMin != nil
+//@ witness min = bigval(p.WithdrawMin)
+//@ witness feeSet = p.WithdrawFee != nil
+//@ witness settleSet = p.Settle != nil
